@@ -250,10 +250,17 @@ CLAIMED["C12"] = {
 }
 
 NOT_APPLICABLE = {
-    "C01": "observable is program output; mechanism is relative jump offsets computed from Vec::len() arithmetic of recursively compiled blocks - deciding it needs symbolic execution of the generators (a different family); see DESIGN.md §5 C01",
-    "C09": "a property of the compiler's *output* for all programs (jump targets, frame balance, operand-stack shape): needs symbolic block lengths or a verifier over emitted bytecode (translation validation), not an analysis of /repo's source; DESIGN.md §5 C09",
-    "C12": "meaning depends on run-time nil/present state and on hand-computed jump offsets (jmp_not_nil n, unwrap_into + if): value-level, no structural clause that is both necessary and robust; DESIGN.md §5 C12",
-    "C15": "evaluation order / single evaluation is a property of the emitted instruction sequence (value-level sequence reasoning); register reuse is already excluded by Rust ownership; DESIGN.md §5 C15",
+    "C01": "the observable is the printed output of whole programs: the meaning of if / while / from-loops / break / continue / return rests on relative jump "
+           "offsets that the generators compute from the lengths of recursively compiled blocks, and on the run-time interplay of frames and values. The symbolic "
+           "generator evaluation built for C15 / C12 (analysis/seqgen.py) keeps block lengths opaque, so it decides emission order and constant skip counts but not "
+           "where a loop's back edge or a rewritten break lands; deciding that needs symbolic arithmetic over block lengths handed to a solver, or running the "
+           "generated code -- both outside this family. Structural fragments of C01 are decided elsewhere: failures stop at the failing statement with a trace "
+           "(C17), operators and conditions are well-typed (C02), evaluation order (C15). DESIGN.md §5 C01",
+    "C09": "a property of the compiler's *output* on every control-flow path (jump landing points, one close per opened scope frame including break / continue / "
+           "return from any depth, operand-stack shape). The loop generators rewrite Break / Continue placeholders found at arbitrary positions inside an already "
+           "compiled (for the analysis: opaque) body and emit offsets that are affine in several child lengths; no sound static argument within reach bounds them "
+           "without symbolic length arithmetic (a solver) or a bytecode verifier run on emitted programs (translation validation). The two constructs whose skip "
+           "count is a constant plus one child length are decided: && / || under C15.short, `or` under C12.or. DESIGN.md §5 C09",
 }
 
 # no hook commits exist; the only commits made to /repo are unguarded "fix:" repairs of genuine defects (see known_findings.json)
